@@ -63,16 +63,8 @@ func ZZ_C10_ErrPos() {
 	// renderings
 	out := PrettifyParsingError(app.NewParserErrors(errs), tf.NewStyler(tf.COLOUR_THEME_NO_COLOUR)).Error()
 	zz.Assert(strings.Count(out, "[SYNTAX ERROR]") == len(errs), "terminal-rendering-lists-every-error")
-	_ = json.ToJson(nil, errs, false)
-	if env, ok := zz.Encoded().(*json.Envelop); ok {
-		zz.Assert(env.Records == nil && len(env.Errors) == len(errs), "json-errors-only")
-		if len(env.Errors) == len(errs) {
-			for i, v := range env.Errors {
-				zz.Assert(v.Line == errs[i].LineNumber() && v.Column == errs[i].Position()+1 && v.Length == errs[i].Length(), "json-error-position")
-				zz.Assert(v.Title == errs[i].Title() && v.Details == errs[i].Details(), "json-error-message")
-			}
-		}
-	}
+	// the JSON rendering: the emitted text, read by the reference JSON reader, carries the same positions and messages
+	zzCheckJSON(json.ToJson(nil, errs, false), nil, errs)
 }
 
 var _ txt.Error
